@@ -15,6 +15,7 @@ from .. import simsched
 from ..case import s2b
 from ..refhttp import response as RESP
 from ..schedworld import run_scenario
+from ..world import adj_default
 from . import c04
 
 PID = "C05"
@@ -108,7 +109,7 @@ def liveness_failures(case, r, prefix, expect_all_served=True, nreq=None):
             [(c["tol"], c["requests"]) for c in snap["channels"]], snap["parked_producers"]))
     for name, fd in snap["parked_producers"]:
         ch = [c for c in snap["channels"] if c["fd"] == fd][0]
-        wm = (case.get("adj") or {}).get("outbuf_high_watermark", 16777216)
+        wm = (case.get("adj") or {}).get("outbuf_high_watermark", adj_default("outbuf_high_watermark"))
         why = "backlog %d <= watermark %d" % (ch["tol"], wm) if ch["tol"] <= wm else ("disconnected" if not ch["connected"] else "client keeps reading")
         fail("producer-parked-forever", "worker %s waits for buffer space at quiescence (%s); blocked: %r" % (name, why, snap["blocked"]))
     for ch in snap["channels"]:
@@ -155,7 +156,7 @@ def run_case_full(case, source=None, record=False):
         labels.add("partial-send")
     if r.trigger_pulls:
         labels.add("trigger-pulled")
-    if r.snap["channels"] and r.snap["channels"][0]["max_tol"] > (case.get("adj") or {}).get("outbuf_high_watermark", 16777216):
+    if r.snap["channels"] and r.snap["channels"][0]["max_tol"] > (case.get("adj") or {}).get("outbuf_high_watermark", adj_default("outbuf_high_watermark")):
         labels.add("above-watermark")
     nontrivial = (partial or "above-watermark" in labels) and r.preemptions > 0
     return fails, nontrivial, labels, r.trace, sched
